@@ -263,6 +263,8 @@ var prefixes = []string{"/r/app", "/r/app/", "/", "/some/test/prefix", ".", "", 
 var hiddenSets = [][]string{
 	{"/var/opt/backups"}, {"/bak"}, {"/a/b", "/a/b/c/d"}, {"/x", "/y/z"}, {"/var/opt/backups/"}, {"//bak/./x"},
 	{"/backups", "/backups2/inner"}, {"/ä/€"}, {"rel/hid"}, {"/"}, {},
+	// a MORE nested hidden path with a SHORTER text than a less nested one (the list is ordered by depth, not by length)
+	{"/a/b/.bk", "/projects_data/.bk"}, {"/x/y/z", "/directory/h"},
 }
 
 // nameNear builds names at, below, beside and above the interesting path p.
